@@ -152,20 +152,26 @@ func run(p *kernel.Plan) (res *kernel.Result) {
 	var reqs []reqRec // written by task Aw only
 	var decs []decRec // written by task Ar only
 	var answered, dupSent int
+	// packets are built here, outside the tasks (building uses fmt; see Task.Evf)
+	pkts := make([]rtmp.Packet, len(p.Ops))
+	for i, op := range p.Ops {
+		if op.K == "connect" {
+			pkts[i], _ = rtmpx.BuildPacket(kernel.Op{K: "connect", N: []int64{op.N[4], op.N[3], 0, 0}})
+		} else {
+			c := rtmp.NewCreateStreamPacket()
+			c.TransactionID = amf0.Number(float64(op.N[0]) / 4)
+			pkts[i] = c
+		}
+	}
 	s.Hook = func(s *rtmpx.Session, e *rtmpx.End, t *kernel.Task, i int, op kernel.Op) bool {
 		if e != s.A {
 			return true
 		}
-		var pkt rtmp.Packet
+		pkt := pkts[i]
 		rec := reqRec{op: i, tid: float64(op.N[0]) / 4, depStep: -1}
 		if op.K == "connect" {
-			c, _ := rtmpx.BuildPacket(kernel.Op{K: "connect", N: []int64{op.N[4], op.N[3], 0, 0}})
-			pkt = c
 			rec.name, rec.tid = "connect", 1
 		} else {
-			c := rtmp.NewCreateStreamPacket()
-			c.TransactionID = amf0.Number(rec.tid)
-			pkt = c
 			rec.name = "createStream"
 		}
 		rec.step0 = s.S.Now()
